@@ -238,6 +238,22 @@ Proof. intros x y s c c' H. unfold prune_fadd in H.
   apply xset_max_isafe in E2. apply xset_min_isafe in E1.
   eauto 10 using store_ile_trans. Qed.
 
+Lemma mul_back_isafe : forall w smin smax dmin dmax, isafe (mul_back w smin smax dmin dmax).
+Proof. intros w smin smax dmin dmax c c' H. unfold mul_back in H.
+  destruct (range_unsafe dmin dmax). { inversion H; apply store_ile_refl. }
+  destruct (somes _) as [|c0 rest]. { inversion H; apply store_ile_refl. }
+  destruct (fv_set_min w _ c) as [c1|] eqn:E1; [|discriminate].
+  apply (proj2 (fv_set_isafe w)) in H. apply (proj1 (fv_set_isafe w)) in E1.
+  eauto using store_ile_trans. Qed.
+Lemma prune_fmul_isafe : forall x y s, isafe (prune_fmul x y s).
+Proof. intros x y s c c' H. unfold prune_fmul in H.
+  destruct (xset_min s _ c) as [c1|] eqn:E1; [|discriminate].
+  destruct (xset_max s _ c1) as [c2|] eqn:E2; [|discriminate].
+  destruct (mul_back x _ _ _ _ c2) as [c3|] eqn:E3; [|discriminate].
+  apply mul_back_isafe in H. apply mul_back_isafe in E3.
+  apply xset_max_isafe in E2. apply xset_min_isafe in E1.
+  eauto 10 using store_ile_trans. Qed.
+
 (* the propagator vocabulary of Model/FloatProps.v *)
 Definition fsafe (p : fprop) : Prop := isafe (fprune p).
 Inductive fvocab : fprop -> Prop :=
@@ -252,13 +268,14 @@ Inductive fvocab : fprop -> Prop :=
 | V_feq : forall x y, fvocab (mk_feq x y)
 | V_ilin : forall cs vs k, fvocab (mk_ilin_le_mixed cs vs k)
 | V_add : forall x y s, fvocab (mk_fadd x y s)
-| V_sub : forall x y s, fvocab (mk_fsub x y s).
+| V_sub : forall x y s, fvocab (mk_fsub x y s)
+| V_mul : forall x y s, fvocab (mk_fmul x y s).
 Lemma fvocab_fsafe : forall p, fvocab p -> fsafe p.
 Proof. intros p H; destruct H; unfold fsafe; simpl.
   apply prune_flin_le_isafe. apply prune_flin_eq_gen_isafe. apply prune_flin_ne_isafe.
   apply prune_flin_le_reif_isafe. apply prune_flin_eq_reif_isafe. apply prune_flin_ne_reif_isafe.
   apply prune_fleq_isafe. apply prune_flt_isafe. apply prune_feq_isafe. apply prune_ilin_le_mixed_isafe.
-  apply prune_fadd_isafe. apply prune_fadd_isafe. Qed.
+  apply prune_fadd_isafe. apply prune_fadd_isafe. apply prune_fmul_isafe. Qed.
 
 Lemma fpropagate_ile : forall pf ps s q r lft, Forall fsafe ps -> fpropagate pf ps s q = (FPDone r, lft) -> store_ile r s.
 Proof. induction pf as [|f IH]; intros ps s q r lft Hps; destruct q as [|p q']; simpl; intro H; try discriminate.
